@@ -153,6 +153,8 @@ class Reader:
                     )
                 self.meta["fileTimeSecs"] = ftsec
         else:
+            # the file may have grown or been replaced since the reader was built or last opened
+            self.nbytes = self.file_bin.stat().st_size
             if self.nc * self.ns * self.dtype.itemsize != self.nbytes:
                 # only complete sample frames count: the last frame of an interrupted write may be partial
                 ftsec = (
